@@ -175,7 +175,7 @@ var mnemonicTypeBits = map[string]int64{
 
 // expectedWidths derives, from an instruction mnemonic, which operand slots are 64 bits
 // wide (the GCN3 / CDNA3 manuals name the operand type in the mnemonic). The result is
-// indexed DST, SRC0, SRC1, SRC2; 0 means "no opinion" (slot absent, or the mnemonic
+// indexed DST, SRC0, SRC1, SRC2; -1 means "the instruction has no such operand", 0 means "no opinion" (slot absent, or the mnemonic
 // does not determine it). Only shapes read off the manuals are decided:
 //
 //	<op>_<T>                 every data operand has type T, except
@@ -222,6 +222,12 @@ func expectedWidths(name, format string) (w [4]int64, decided bool) {
 		return false
 	}
 	switch {
+	case format == "VOP3b" && len(types) == 1 && last == 32 && (op == "add" || op == "sub" || op == "subrev" || op == "add_co" || op == "sub_co" || op == "subrev_co"):
+		// carry-out only: two sources, no third operand
+		return [4]int64{32, 32, 32, -1}, true
+	case format == "VOP3b" && len(types) == 1 && last == 32 && (op == "addc" || op == "subb" || op == "subbrev" || op == "addc_co" || op == "subb_co" || op == "subbrev_co"):
+		// the carry-in is a 64-bit lane mask in SRC2
+		return [4]int64{32, 32, 32, 64}, true
 	case toks[1] == "cmp" || toks[1] == "cmpx" || toks[1] == "bitcmp0" || toks[1] == "bitcmp1":
 		if len(types) != 1 {
 			return w, false
@@ -346,12 +352,31 @@ func checkTableWidths(c *core.Ctx, t *InstTables) {
 			st.Instances++
 			have := r.Widths[i]
 			bad := (want[i] == 64 && have != 64) || (i == 0 && want[i] == 32 && have == 64)
+			if want[i] == -1 {
+				// the decoders build Src2 whenever its table width is not zero
+				st.Ob(have == 0)
+				if have != 0 {
+					c.Report(core.Finding{Rule: "R04.18", Pkg: instsPkg, Func: "DecodeTable", Detail: fmt.Sprintf("row-operand-phantom:%s:%s:%s", r.Format, strings.TrimSpace(r.Name), fieldNames[i]), Pos: c.Position(r.Pos),
+						Msg: fmt.Sprintf("%s row %s (opcode %d) has %s %d, but the instruction has no such operand: decode%s builds one from bits that are not a field of this instruction, and the disassembly shows a third source", r.Format, strings.TrimSpace(r.Name), r.Opcode, fieldNames[i], have, r.Format)})
+				}
+				continue
+			}
 			st.Ob(!bad)
 			if bad {
 				c.Report(core.Finding{Rule: "R04.18", Pkg: instsPkg, Func: "DecodeTable", Detail: fmt.Sprintf("row-width:%s:%s:%s", r.Format, strings.TrimSpace(r.Name), fieldNames[i]), Pos: c.Position(r.Pos),
-					Msg: fmt.Sprintf("%s row %s (opcode %d) has %s %d, but the mnemonic makes that operand %d bits wide: decode%s gives the operand %s", r.Format, strings.TrimSpace(r.Name), r.Opcode, fieldNames[i], have, want[i], r.Format, map[bool]string{true: "one register instead of two", false: "two registers instead of one"}[want[i] == 64])})
+					Msg: fmt.Sprintf("%s row %s (opcode %d) has %s %d, but the mnemonic makes that operand %d bits wide: decode%s %s", r.Format, strings.TrimSpace(r.Name), r.Opcode, fieldNames[i], have, want[i], r.Format, widthEffect(i, have, want[i]))})
 			}
 		}
 	}
 	st.Sample("%d rows of width-consulting formats have a mnemonic outside the transcribed grammar (undecided, not checked)", undecided)
+}
+
+func widthEffect(slot int, have, want int64) string {
+	switch {
+	case slot == 3 && have == 0:
+		return "does not decode the operand at all: Inst.Src2 stays nil and the handler that reads the carry-in / third source dereferences it"
+	case want == 64:
+		return "gives the operand one register instead of two"
+	}
+	return "gives the operand two registers instead of one"
 }
